@@ -944,6 +944,7 @@ impl<T: Transport, Env: UtpEnvironment> VirtualSocket<T, Env> {
             // TODO: ensure this is synchronized
             if tx_len == 0 {
                 update_optional_waker(&mut g.dispatcher_waker, cx);
+                self.this_poll.unsegmented_data = 0;
                 return Ok(());
             }
 
@@ -975,6 +976,12 @@ impl<T: Transport, Env: UtpEnvironment> VirtualSocket<T, Env> {
 
             tx_len
         };
+
+        // Keep the count of bytes not yet cut into segments current on every path out of here:
+        // the close decision (unsent_data_exists) relies on it, also while an outstanding MTU
+        // probe holds further segmentation back.
+        self.this_poll.unsegmented_data =
+            tx_len.saturating_sub(self.user_tx_segments.total_len_bytes());
 
         if self.state.is_remote_fin_or_later() {
             trace!(?self.state, "there is still unsent data, but the remote closed, so not segmenting further");
